@@ -94,8 +94,14 @@ def oracle(ctx, obs):
         g = lambda k: f64_of_hex(r[k])
         st = o["setup"]
         ctx.seen(("rates", o["id"], r["cc"]))
-        n = r["res"]
-        tr = lambda xs: [xs[(k % n) * n + k // n] for k in range(n * n)]
+        # pair every grid point (ws, wi) with the point (wi, ws) of the transposed grid by frequency bit patterns
+        pos_t = {(g2[0], g2[1]): k for k, g2 in enumerate(r["grid_t"])}
+        perm = [pos_t.get((g1[1], g1[0])) for g1 in r["grid"]]
+        if any(k is None for k in perm) or len(set(perm)) != len(perm):
+            ctx.violation("S4", "transposed grid does not consist of the exchanged frequency pairs", {"kind": "grid_pairing"}, {"setup": st},
+                          found_input=False)
+            continue
+        tr = lambda xs: [xs[k] for k in perm]
         # JSI on the grid vs the exchanged setup's JSI on the transposed grid
         jsi = [f64_of_hex(x) for x in r["jsi"]]
         jsw = tr([f64_of_hex(x) for x in r["jsi_sw_t"]])
@@ -110,6 +116,27 @@ def oracle(ctx, obs):
         if any(abs(x - y) > TOL * max(x, y) and max(x, y) > 1e-9 * m for x, y in zip(ji, js)):
             ctx.violation("S5", "jsi_singles_idler_range differs from the exchanged setup's jsi_singles_range on the transposed grid",
                           {"kind": "singles_idler_spectrum"}, {"setup": st, "idler": ji, "exchanged_signal_transposed": js})
+        # rates with the (known-asymmetric) correction factor divided out: the clause the theorems prove — correction-free rate of the
+        # setup = correction-free rate of the exchanged setup on the transposed grid (cells dws x dwi vs dwi x dws)
+        ctx.count("grid:%s cells %s" % ("x".join(map(str, r["res"])), "equal" if r["dws"] == r["dwi"] else "unequal"))
+        for qa, qb, what in (("cc", "cc_sw", "counts_coincidences"), ("si", "ss_sw", "counts_singles_idler vs exchanged counts_singles_signal"),
+                             ("ss", "si_sw", "counts_singles_signal vs exchanged counts_singles_idler")):
+            # idler singles use the UNexchanged setup's correction factor (src/spdc/counts.rs), signal singles / coincidences their own
+            ca = g("corr")
+            cb = g("corr_sw")
+            va, vb = g(qa) / ca, g(qb) / cb
+            if abs(va - vb) > TOL * max(abs(va), abs(vb)):
+                ctx.violation("S5", f"{what}: with get_counts_correction divided out the rate of a setup ({va!r}) differs from that of the exchanged "
+                              f"setup on the transposed grid ({vb!r}); grid {r['res']}, cell widths {g('dws'):.6g} x {g('dwi'):.6g} rad/s",
+                              {"kind": "rate_exchange_modulo_correction", "quantity": qa},
+                              {"setup": st, "rate_over_correction": va, "exchanged_rate_over_correction": vb, "res": r["res"],
+                               "dws": g("dws"), "dwi": g("dwi")})
+        # the rate is the Riemann sum: correction x sum(jsi) x dws x dwi
+        riemann = g("corr") * sum(jsi) * g("dws") * g("dwi")
+        if abs(riemann - g("cc")) > 1e-9 * abs(g("cc")):
+            ctx.violation("S4", "counts_coincidences is not get_counts_correction x sum(jsi) x dws x dwi over the grid",
+                          {"kind": "counts_composition"}, {"setup": st, "counts_coincidences": g("cc"), "recomputed": riemann,
+                                                           "dws": g("dws"), "dwi": g("dwi")}, found_input=False)
         # rates
         cc, ccs = g("cc"), g("cc_sw")
         ratio_corr = g("corr_sw") / g("corr") if g("corr") else float("nan")
